@@ -154,7 +154,7 @@ func (t *Tape) Record() map[string][]uint32 {
 		if n > len(s.vals) {
 			n = len(s.vals)
 		}
-		v := append([]uint32(nil), s.vals[:n]...)
+		v := append([]uint32{}, s.vals[:n]...)
 		// trailing zeros carry no information
 		for len(v) > 0 && v[len(v)-1] == 0 {
 			v = v[:len(v)-1]
